@@ -36,6 +36,9 @@ pub enum Strategy {
     /// run thread `t` alone until it is about to perform atomic event `k` of its operation `op`,
     /// park it there until every other thread has finished or is spinning, then resume it
     Pause { t: usize, op: usize, k: usize },
+    /// at every yield point the running thread is parked with probability q% for 3..max scheduler
+    /// steps while the others run (long gaps between a load and the RMW that depends on it)
+    Delay(u32, u32),
 }
 
 #[derive(Clone, Debug)]
@@ -133,6 +136,9 @@ pub struct Core {
     pub holders: i64,
     pub refs_checks: u64,
     pub refs_busy: Vec<bool>,
+    /// address of the bump cursor word (learned from the first CAS the fast path performs on it)
+    pub cursor_addr: usize,
+    pub parked_until: Vec<u64>,
 }
 
 pub struct Sched {
@@ -210,6 +216,8 @@ impl Core {
             holders: 0,
             refs_checks: 0,
             refs_busy: vec![],
+            cursor_addr: 0,
+            parked_until: vec![],
         }
     }
 
@@ -261,6 +269,23 @@ impl Core {
                     } else {
                         others[self.rng.usize(others.len())]
                     }
+                }
+            }
+            Strategy::Delay(q, max) => {
+                if self.parked_until.len() < self.n {
+                    self.parked_until = vec![0; self.n];
+                }
+                if pool.contains(&me) && self.rng.below(100) < q as u64 {
+                    self.parked_until[me] = self.steps + 3 + self.rng.below(max as u64);
+                }
+                let awake: Vec<usize> = pool.iter().copied().filter(|t| self.parked_until[*t] <= self.steps).collect();
+                if awake.is_empty() {
+                    // everybody is parked: wake the one whose time is up first
+                    *pool.iter().min_by_key(|t| self.parked_until[**t]).unwrap()
+                } else if awake.contains(&me) && self.rng.below(100) >= 25 {
+                    me
+                } else {
+                    awake[self.rng.usize(awake.len())]
                 }
             }
             Strategy::Pct(_) => {
